@@ -10,7 +10,9 @@
 EXTENDS FilterMode, Json, IOUtils
 
 CONSTANT NChunks
-Recs == ndJsonDeserialize(IOEnv.TRACE)
+\* parsed once at start-up into a TLC register (TLC re-evaluates a definition that reads a file on every reference)
+ASSUME TLCSet(7, ndJsonDeserialize(IOEnv.TRACE))
+Recs == TLCGet(7)
 Verdict(rec) ==
   LET want == Run(rec.cfg)
       okLog == rec.log = want.log
